@@ -41,6 +41,8 @@ def parse_spec(path):
             secs['drop_enumerate'].append(arg.strip())
         elif kind == '@prologue':
             secs['prologue'] = text
+        elif kind == '@attr':
+            secs['attr'] = text
         elif kind == '@loop':
             secs['loops'][arg.strip()] = text
         elif kind == '@never_loop':
@@ -53,6 +55,8 @@ def parse_spec(path):
             secs['proofs'].append((anchor, where, text))
         elif kind == '@replace':
             secs['_pending_replace'] = text
+        elif kind == '@replace_all':
+            secs['_pending_replace'] = '*' + text
         elif kind == '@with':
             secs['subst'].append(('~' + secs.pop('_pending_replace'), text.strip('\n')))
         elif kind == '@subst':
@@ -193,7 +197,7 @@ class GroupBuild:
         orig, new = X.emit_fn(self.src(rel), name, impl=impl, nth=nth, contract=secs['contract'],
                               loops=secs['loops'], never_loop=secs['never_loop'], to_string=secs['to_string'],
                               proofs=secs['proofs'], prologue=secs['prologue'], drop_enumerate=secs.get('drop_enumerate'), stub=stub, wrap_impl=wrap_impl, log=log,
-                              subst=secs['subst'], resname=resname)
+                              subst=secs['subst'], resname=resname, attrs=secs.get('attr'))
         kind = 'stub' if stub else 'fn'
         self.parts.append((kind, unit, '%s::%s' % (rel, name), new))
         can = self.canary(new, name, stub, wrap_impl)
@@ -470,6 +474,28 @@ REFUTED_MSGS = ('postcondition not satisfied', 'precondition not satisfied', 'in
                 'loop ensures not satisfied', 'failed precondition', 'cannot show invariant holds')
 
 
+def _is_own(name):
+    return not (name.startswith('/rustc/') or 'std_specs' in name or '/vstd/' in name or name.startswith('/opt/'))
+
+
+def _own_span(s):
+    """a span inside std / vstd macro definitions (unreachable!(), panic!()) is replaced by the span of its expansion site
+    in the generated file; spans that never reach the generated file are dropped"""
+    prim = s.get('is_primary')
+    cur = s
+    for _ in range(8):
+        if cur is None:
+            return None
+        if _is_own(cur.get('file_name', '')):
+            out = dict(cur)
+            out['is_primary'] = prim
+            if not out.get('label') and cur is not s:
+                out['label'] = 'panic site (macro expansion)'
+            return out
+        cur = (cur.get('expansion') or {}).get('span')
+    return None
+
+
 def classify(res, linemap):
     """returns (status, per_unit, other_errors)"""
     per_unit = {}
@@ -480,7 +506,8 @@ def classify(res, linemap):
         msg = d.get('message', '')
         if msg.startswith('aborting due to'):
             continue
-        spans = d.get('spans', [])
+        spans = [_own_span(s) for s in d.get('spans', [])]
+        spans = [s for s in spans if s is not None]
         prim = [s for s in spans if s.get('is_primary')] or spans
         line = prim[0]['line_start'] if prim else 0
         unit = None
